@@ -23,6 +23,20 @@ def zero(e):
         return None, str(ex)
 
 
+def c03_domain(s_):
+    """witness ranges (hundredths) of this property's quantifier: eccentricity in [0, 0.1], latitudes at mid latitudes, small longitude offsets"""
+    n = s_.name
+    if n in ('arg:e', 'this.e_', 'ellipsoid.e', 'e') or n.endswith('.e'):
+        return (1, 10)
+    if 'latitude' in n.lower():
+        return (30, 130)
+    if 'longitude' in n.lower():
+        return (-50, 50)
+    if n.endswith('k0'):
+        return (99, 100)
+    return None
+
+
 def chk(R, ok, res, rule, inst, what, detail, loc, eng='E-ALG'):
     """ok from zero(): True -> HOLDS.  Otherwise the residual is confirmed non-zero on a witness point before VIOLATED is reported;
     a residual that merely does not simplify is UNDECIDED (alg.decide_zero)."""
@@ -36,7 +50,7 @@ def chk(R, ok, res, rule, inst, what, detail, loc, eng='E-ALG'):
         if not isinstance(r_, sp.Basic):
             worst = worst or ('unknown', 'simplifier error: %s' % (r_,))
             continue
-        v = alg.decide_zero(r_)
+        v = alg.decide_zero(r_, domain=c03_domain)
         if v[0] == 'nonzero':
             R.violated(rule, inst, '%s  [non-zero, e.g. %s at %s]' % (what, v[2], alg.witness_text(v[1])), loc, eng)
             return
